@@ -839,6 +839,35 @@ def _execute(scn, keep_objects=False, prev_ctx=None):
                 res['elements_type'] = type(pt.elements).__name__
                 res['self_locking'] = pt.self_locking
                 rec['probe'] = res
+            elif kind == 'other_powertrain':
+                # a SECOND powertrain on the same motor: one chain gear is
+                # mated with a new output gear, the new powertrain is
+                # simulated and reset, then the first one is used again
+                try:
+                    new = construct(op['element'])
+                    if not hasattr(ctx, 'extra'):
+                        ctx.extra = []
+                    ctx.extra.append(new)
+                    g.utils.add_gear_mating(master=ctx.objs[op['decl']['m']],
+                                            slave=new,
+                                            efficiency=op['decl']['eff'])
+                    other = g.powertrain.Powertrain(motor=ctx.objs[ctx.chain[0]])
+                    rec['other_chain_len'] = len(other.elements)
+                    lv = op['load']
+                    new.external_torque = (
+                        lambda angular_position, angular_speed, time:
+                        U.Torque(lv, 'Nm'))
+                    new.angular_position = U.AngularPosition(0, 'rad')
+                    new.angular_speed = U.AngularSpeed(0, 'rad/s')
+                    dt2 = Q(U.TimeInterval, op['dt'])
+                    g.solver.Solver(powertrain=other).run(
+                        time_discretization=dt2, simulation_time=dt2 * op['n'])
+                    rec['other_instants'] = len(other.time)
+                    other.reset()
+                    if op.get('reapply') and init is not None:
+                        apply_ic()
+                except Exception as ex:      # noqa
+                    rec['exc'] = _exc(ex)
             elif kind == 'branch_off':
                 # after assembly a chain element is declared as the master
                 # of a NEW element (say, to build a second powertrain on the
